@@ -828,7 +828,7 @@ func (vc *FnVC) wf(guard, term string, t types.Type, st *state, depth int) {
 			for i := 0; i < u.NumFields(); i++ {
 				ft := u.Field(i).Type()
 				switch ft.Underlying().(type) {
-				case *types.Slice, *types.Struct:
+				case *types.Slice, *types.Struct, *types.Interface:
 					vc.wf(guard, "("+vc.w.so.accessor(t, i)+" "+term+")", ft, st, depth+1)
 				}
 			}
